@@ -222,3 +222,31 @@ Definition emit_rest_indented (indent_level : nat) (emit_types : bool) (doc : st
       else if Nat.eqb (count_char NL cand) 0 then (if c =? NL then cand else NL :: cand)
       else indent_doc indent_level cand
   end.
+
+(* emit_separating_tab = False (what cdd/function/emit.py passes on Python >= 3.9): empty lines get no tab prefix *)
+Definition indent_doc_nt (indent_level : nat) (cand : str) : str :=
+  match indent_level with
+  | O => cand
+  | _ =>
+    let tabs := concat (repeat TAB indent_level) in
+    let '(line, next_nl) := skip_blank_lines (S (length cand)) cand 0 (find [NL] cand) in
+    let n := slen cand in
+    let start := if (n =? next_nl)%Z || (((next_nl + 1) <? n)%Z && negb (match nth_char cand (next_nl + 1) with Some c => c =? NL | None => false end))
+                 then next_nl else (next_nl + 1)%Z in
+    let lines := (match line with [] => [] | _ => [line] end) ++ splitlines_nl (slice_from cand start) in
+    let joined := join [NL] (map (fun l => match l with [] => [] | _ => tabs ++ l end) lines) in
+    if Nat.ltb 1 (length lines)
+    then (if startswith tabs joined then [NL] else []) ++ joined ++ (if ends_nl joined then [] else [NL] ++ tabs)
+    else joined
+  end.
+
+Definition emit_rest_indented_nt (indent_level : nat) (emit_types : bool) (doc : str) (ps : list (str * pentry)) (ret : option pentry) : str :=
+  let ar := args_returns emit_types ps ret in
+  let cand := header_args_footer_to_str doc (if isspace ar then [] else ar) [] in
+  match cand with
+  | [] => []
+  | c :: _ =>
+      if isspace cand then []
+      else if Nat.eqb (count_char NL cand) 0 then (if c =? NL then cand else NL :: cand)
+      else indent_doc_nt indent_level cand
+  end.
